@@ -728,6 +728,9 @@ def run_symderef(chk, F, rid="R-SYMDEREF"):
         for site, conds in sites_with_conditions(fn["body"], lambda x: source(x) is not None):
             src, names = source(site)
             recv_txt = short(src.get("recv")) if src.get("recv") is not None else "this"
+            for pre in ("*this.", "(*this).", "this->"):        # a worker that was handed *this
+                if recv_txt.startswith(pre):
+                    recv_txt = recv_txt[len(pre):]
             n += 1
             # does the path rule out `value == symbol_t()`?  assume it and look for a contradiction
             def is_empty_test(c):
